@@ -599,7 +599,7 @@ func (w *Where) optWhereLookup(mode Mode, req Require) (Cost, Cost, any) {
 	}
 	best := newBest[[]string]()
 	for idxi, idx := range w.tbl.indexes {
-		if indexCovered(idx, req.cols, w.fixed) {
+		if indexCovered(w.tbl.lookupCols(idxi), req.cols, w.fixed) {
 			varcost := Cost(req.nseeks) * w.tbl.lookupCostI(idxi)
 			best.update(0, varcost, idx)
 		}
@@ -923,16 +923,20 @@ func (w *Where) Lookup(th *Thread, sels Sels) Row {
 		row := getNext1(w, th)
 		return lookupFilter(w.Header(), row, sels, th, w.rowCtx.Tran)
 	}
+	srcCols := w.srcIndex
+	if w.tbl != nil {
+		srcCols = w.tbl.lookupCols(w.tbl.iIndex)
+	}
 	cloned := false
 	sels = slices.Clip(sels)
 	for _, fix := range w.fixed {
-		if fix.Single() && slices.Contains(w.srcIndex, fix.col) &&
+		if fix.Single() && slices.Contains(srcCols, fix.col) &&
 			!sels.HasCol(fix.col) {
 			sels = append(sels, Sel{fix.col, fix.values[0]})
 			cloned = true // because they're clipped, append will realloc
 		}
 	}
-	isels, _ := Split(cloned, sels, w.srcIndex)
+	isels, _ := Split(cloned, sels, srcCols)
 	row := lookup(w.source, isels, th, w.rowCtx.Tran)
 	if !w.filter(th, row) {
 		row = nil
